@@ -12,7 +12,9 @@ use crate::namespaces::NamespaceInfo;
 use crate::parser::ast::{
     self, AstId, Block, Expression, IdGenerator, SymbolName, SyntaxId, ToplevelItem,
 };
+use crate::parser::lex::lex_between;
 use crate::parser::parse_toplevel_items;
+use crate::parser::position::Position;
 use crate::parser::vfs::Vfs;
 use crate::parser::visitor::Visitor;
 use crate::pos_to_id::{find_expr_of_id, find_item_at};
@@ -82,7 +84,7 @@ fn extract_single_expr(
 
     // An `else if` has no braces of its own, so a call in its place
     // needs them: `else { extracted_fun() }`.
-    let needs_braces = follows_else_keyword(src, expr.position.start_offset);
+    let needs_braces = follows_else_keyword(src, &expr.position);
 
     let mut result = String::new();
 
@@ -132,13 +134,15 @@ fn extract_single_expr(
     Ok(result)
 }
 
-/// Is the text before `offset` the keyword `else` (and whitespace)?
-fn follows_else_keyword(src: &str, offset: usize) -> bool {
-    let before = src[..offset].trim_end();
-    match before.strip_suffix("else") {
-        Some(rest) => !rest.ends_with(|c: char| c.is_alphanumeric() || c == '_'),
-        None => false,
+/// Is the last token before `position` the keyword `else`?
+fn follows_else_keyword(src: &str, position: &Position) -> bool {
+    let (mut tokens, _errors) = lex_between(&position.vfs_path, src, 0, position.start_offset);
+
+    let mut last_token_text = None;
+    while let Some(token) = tokens.pop() {
+        last_token_text = Some(token.text);
     }
+    last_token_text == Some("else")
 }
 
 fn extract_exprs(
